@@ -29,7 +29,11 @@ DBLS = [(0, 0), (1, 0), (-1, 0), (1, -1), (-1, -1), (3, -1), (5, -1), (-5, -1), 
         (10000000000, 0), (1, 31), (1, 32), (1, 63), (1, 64), (-1, 31), (-1, 63), (4294967295, -1), (-4294967297, -1),
         (4294967295, 0), (8589934591, -1), (9007199254740991, 0), (9007199254740991, 11), (-9007199254740991, 10),
         (9007199254740991, -53), (1, 70), (-1, 70), (7, -2), (1234567, -10), (-1234567, -10), (15, -4), (1, -1074 + 1100),
-        (123456789, -27), (2147483647, 0), (-2147483648, 0), (-2147483649, 0), (4611686018427387904, 1), (999999, -3)]
+        (123456789, -27), (2147483647, 0), (-2147483648, 0), (-2147483649, 0), (4611686018427387904, 1), (999999, -3),
+        # round 5: the ends of the binary64 range and the float range (subnormals, below FLT_TRUE_MIN / above FLT_MAX, DBL_MAX)
+        (1, -1074), (-1, -1074), (3, -1074), (1, -1022), (-1, -1022), (4503599627370495, -1074), (1, -150), (-1, -150), (1, -149),
+        (1, -126), (1, -127), (1, 127), (16777215, 104), (1, 128), (-1, 128), (9007199254740991, 971), (-9007199254740991, 971),
+        (1, 1023), (-1, 1023), (1, 300), (1, -300), (5, -70), (1, 100)]
 STRS = ['', '0', '1', '-1', '+5', '  42', '007', '0.0', '0.', '00.00', '.0', '0.5', '-0.5', '.5', '5.', 'false', 'FALSE', 'False',
         'falsE', 'true', 'abc', '1e3', '1E-2', '2.5e1', '12abc', '99999999999', '-99999999999', '9223372036854775807',
         '9223372036854775808', '-9223372036854775808', '-9223372036854775809', '18446744073709551615', '18446744073709551616',
@@ -38,8 +42,12 @@ STRS = ['', '0', '1', '-1', '+5', '  42', '007', '0.0', '0.', '00.00', '.0', '0.
         '1.5.5', '\xc3\xa9', '0 ', '00', '0.000', '0.00x', '000.', '.', '00.', 'x0', '0x', '+-5', '-+5', '- 5', '1e-7', '2.5',
         '0.5000005', '1.0000015', '0.0000005', '0.00000049', '1.9999995', '99999999999999999999999', '-99999999999999999999999',
         '1e15', '8.5e-3', '.e5', '5e', '5e-', '5ee5', 'fals', 'falsee', '0false', 'tru', '1.0', '01.0', '0.10', '0..', '0.0.',
-        '9007199254740993', '4503599627370497.5', '1e2x', ' +0.0', '0e0', '0.0e5', '00.0e', 'Fa1se', '127', '32768']
-KEYS = ['', 'a', 'b', 'k', 'ab']
+        '9007199254740993', '4503599627370497.5', '1e2x', ' +0.0', '0e0', '0.0e5', '00.0e', 'Fa1se', '127', '32768',
+        # round 5: String is length-counted, the conversions read a C string: values with a NUL byte
+        'a\0b', '\0', '12\x0034', 'false\0', 'fals\0e', '0\0', '0\x001', '1\0', '\x005', '0.\x005', '-7\0x', 'ab\0', '\0\0', 'true\0false',
+        '2147483647', '-2147483648', '2147483648', '-1\x0099']
+KEYS = ['', 'a', 'b', 'k', 'ab', 'a\0', 'a\0b']
+APPS = ['', 'x', '0', '.5', 'e1', 'yz', '\0', '\x007', 'q\0r']
 
 
 def hx(s):
@@ -53,7 +61,8 @@ BIG_EXP = re.compile(r'[eE][+-]?\d{3,}')
 
 
 def str_ok(s):
-    return '\0' not in s and not BAD_STR.search(s) and not BIG_EXP.search(s)
+    c = s.split('\0')[0]      # NUL bytes are allowed (round 5); the conversions read the C-string prefix
+    return not BAD_STR.search(c) and not BIG_EXP.search(c)
 
 
 def scalars(rng):
@@ -80,7 +89,8 @@ def rand_scalar(rng):
     if rng.random() < 0.6:
         m, e = rng.choice(DBLS)
     else:
-        m, e = rng.randrange(-2 ** 53 + 1, 2 ** 53), rng.randrange(-60, 40)
+        # any m * 2^e with |m| < 2^53 and -1074 <= e <= 971 is a binary64 value (subnormal, normal, up to DBL_MAX)
+        m, e = rng.randrange(-2 ** 53 + 1, 2 ** 53), (rng.randrange(-60, 40) if rng.random() < 0.6 else rng.randrange(-1074, 972))
     return dbl(m, e)
 
 
@@ -88,7 +98,7 @@ def rand_str(rng):
     if rng.random() < 0.7:
         return rng.choice(STRS)
     for _ in range(50):
-        s = ''.join(rng.choice('0123456789..-+eE fFaAlLsS xt\t5') for _ in range(rng.randrange(0, 9)))
+        s = ''.join(rng.choice('0123456789..-+eE fFaAlLsS xt\t5\0') for _ in range(rng.randrange(0, 9)))
         if str_ok(s):
             return s
     return '1'
@@ -211,9 +221,14 @@ def kind_of(v):
     return v[1] if v[0] == 'node' else None
 
 
-def history(rng, k, n, nested=0.5, invalid=0.03, aliasing=True):
-    """a random history over k variables; returns op lines (the shadow keeps paths mostly valid)"""
+def history(rng, k, n, nested=0.5, invalid=0.03, aliasing=True, special=0.0):
+    """a random history over k variables; returns op lines (the shadow keeps paths mostly valid).
+    special > 0: a scalar is an infinity or -0 with that probability, and toString()-through-the-mutable-accessor
+    operations (strtouch / strapp) are replaced by scalar assignments (see the stand-in oracle below)"""
     sh = Shadow(k)
+    rand_scalar0 = globals()['rand_scalar']
+    def rand_scalar(rng):
+        return rng.choice(NESTED_SPECIALS) if (special and rng.random() < special) else rand_scalar0(rng)
     ops = []
     for _ in range(n):
         r = rng.random()
@@ -223,7 +238,7 @@ def history(rng, k, n, nested=0.5, invalid=0.03, aliasing=True):
             i = rng.choice([k, k + 1, i])
         p = sh.rand_path(rng, i if i < k else 0, p_stop=1 - nested, invalid=invalid) if i < k else []
         tgt = sh.read(p, sh.v[i]) if i < k else None
-        if r < 0.10:
+        if r < 0.10 or (special and 0.57 <= r < 0.62):
             s = rand_scalar(rng)
             ops.append('sets %d %s %s' % (i, path_tok(p), s))
             if i < k:
@@ -288,7 +303,7 @@ def history(rng, k, n, nested=0.5, invalid=0.03, aliasing=True):
             if rng.random() < 0.4:
                 ops.append('strtouch %d %s' % (i, path_tok(p)))
             else:
-                ops.append('strapp %d %s %s' % (i, path_tok(p), hx(rng.choice(['', 'x', '0', '.5', 'e1', 'yz']))))
+                ops.append('strapp %d %s %s' % (i, path_tok(p), hx(rng.choice(APPS))))
             if i < k:
                 sh.v[i], _ = sh.upd(p, lambda v: v if v[0] == 'str' else ('str', '?'), sh.v[i])
         elif r < 0.71 and aliasing and i < k:
@@ -453,51 +468,88 @@ def cowsplit_cases():
 
 
 # ----------------------------------------------------------------------------------------------
-# infinities and negative zero: outside the Coq value model (doubles there are exact dyadics), but inside the
-# property ("floating values other than NaN").  Cases whose operands include dinf / d-inf / d-0 are judged by
-# the small oracle below instead of the extracted Spec/Model: root-level scalar histories only; what IEEE and
-# printf("%f") prescribe for the three special values is written out here, everything about the ordinary
-# operands (their coercions) is taken from the extracted Spec.
+# infinities, negative zero (and NaN): outside the Coq value model (doubles there are exact dyadics).  Infinities and -0
+# are inside the property ("floating values other than NaN").  Cases whose operands include dinf / d-inf / d-0 / dnan
+# are answered in one of two ways instead of directly by the extracted Spec/Model:
+#  (a) root-level scalar histories (set / construct / assign / swap / copy / clear of whole variables): the small
+#      python oracle below - what IEEE and printf("%f") prescribe for the special values is written out here,
+#      everything about the ordinary operands (their coercions) is taken from the extracted Spec.  NaN only here;
+#      the property excludes NaN, so the expected (spec) observation of a variable holding NaN and every == with
+#      it is `?`; what IEEE says is kept on the model side (correspondence only).
+#  (b) every other history (special doubles inside lists / arrays / maps, at any depth, copied, compared,
+#      reassigned; round 5): the extracted Spec/Model is run on the case with each infinity replaced by a
+#      finite stand-in that no generator produces (+-9007199254740989 * 2^970) and -0 by 0, and the stand-in is
+#      renamed in the answer.  This is exact because no operation branches on a scalar's value and the stand-in
+#      agrees with the infinity on everything observed except its name and its %f text: toBool true, every
+#      float -> integer cast undefined, equal to itself and to nothing else that is generated (strings reading as
+#      "inf" are excluded by BAD_STR).  -0 agrees with 0 on everything observed except the %f text of a
+#      root-level variable ("-0.000000"), which is patched where a second run with a marked stand-in shows the -0
+#      has travelled.  strtouch / strapp (which would turn the stand-in's text into a string payload) are not part
+#      of these cases.
 # ----------------------------------------------------------------------------------------------
-SPECIALS = {          # token: (dump, toBool, toInt.., toDouble token, toString, float)
-    'dinf': ('dinf', '1', 'ub', 'ub', 'ub', 'ub', 'dinf', 'inf', float('inf')),
-    'd-inf': ('d-inf', '1', 'ub', 'ub', 'ub', 'ub', 'd-inf', '-inf', float('-inf')),
-    'd-0': ('d0_0', '0', '0', '0', '0', '0', 'd0_0', '-0.000000', -0.0),   # the harness prints both zeros as d0_0
+SPECIALS = {          # token: (dump, isNull, toBool, toInt.., toDouble token, toString, float)
+    'dinf': ('dinf', '0', '1', 'ub', 'ub', 'ub', 'ub', 'dinf', 'inf', float('inf')),
+    'd-inf': ('d-inf', '0', '1', 'ub', 'ub', 'ub', 'ub', 'd-inf', '-inf', float('-inf')),
+    'd-0': ('d0_0', '0', '0', '0', '0', '0', '0', 'd0_0', '-0.000000', -0.0),   # the harness prints both zeros as d0_0
+    'dnan': ('dnan', '0', '1', 'ub', 'ub', 'ub', 'ub', 'dnan', 'nan', float('nan')),
 }
-SPECIAL_RE = re.compile(r'(^| )d(inf|-inf|-0)( |$)')
+SPECIAL_RE = re.compile(r'(^| )d(inf|-inf|-0|nan)( |$)')
 COMPANIONS = ['n', 'b0', 'b1', 'i0', 'i1', 'i-1', 'i2147483647', 'u0', 'u4294967295', 'I0', 'I-9223372036854775808', 'U0',
-              'U18446744073709551615', 'd0_0', 'd1_0', 'd-1_0', 'd1_-1', 'd1_64', 'd-1_70', 'd1_-30']
+              'U18446744073709551615', 'd0_0', 'd1_0', 'd-1_0', 'd1_-1', 'd1_64', 'd-1_70', 'd1_-30',
+              'd1_-1074', 'd-1_-1074', 'd1_-1022', 'd1_-150', 'd-1_-149', 'd1_127', 'd1_128', 'd-1_128',
+              'd9007199254740991_971', 'd-9007199254740991_971']
 TYPECODE = {'n': 0, 'b': 1, 'd': 2, 'i': 3, 'u': 4, 'I': 5, 'U': 6}
+STANDIN_M = 9007199254740989
+STANDIN = {'dinf': 'd%d_970' % STANDIN_M, 'd-inf': 'd-%d_970' % STANDIN_M}
+STANDIN_TEXT = hexs(('%d.000000' % (STANDIN_M * 2 ** 970)).encode())
+NEGZERO_MARK = 'd-3_-1074'
+ROOT_OPS = ('sets', 'csets', 'assign', 'copynew', 'swap', 'clear')
 
 
 def is_special_case(case):
     return any(SPECIAL_RE.search(l) for l in case)
 
 
+def is_root_scalar_case(case):
+    """inside the language of SpecialOracle (a)"""
+    for l in case:
+        if l.startswith('@'):
+            continue
+        t = l.split()
+        if t[0] not in ROOT_OPS:
+            return False
+        if t[0] in ('sets', 'clear') and t[2] != '-':
+            return False
+        if t[0] == 'assign' and (len(t) != 5 or t[2] != '-' or t[4] != '-'):
+            return False
+    return True
+
+
 def dbl_tok_value(tok):
-    if tok in ('dinf', 'd-inf'):
+    import math
+    if tok in ('dinf', 'd-inf', 'dnan'):
         return float(tok[1:])
     m, e = tok[1:].split('_')
-    return float(int(m)) * (2.0 ** int(e))       # exact: |m| < 2^53 in the companion list
+    return math.ldexp(float(int(m)), int(e))       # exact: |m| < 2^53, result inside the binary64 range
 
 
 class SpecialOracle:
     """value model of root-level scalar histories with special doubles"""
 
     def __init__(self, coercions_of):
-        self.coercions_of = coercions_of      # ordinary token -> 'b,i,u,I,U,dtok,strhex' (from the extracted Spec)
+        self.coercions_of = coercions_of      # ordinary token -> 'null,b,i,u,I,U,dtok,strhex' (from the extracted Spec)
 
     def co(self, tok):
         if tok in SPECIALS:
             sp = SPECIALS[tok]
-            return [sp[1], sp[2], sp[3], sp[4], sp[5], sp[6], hexs(sp[7].encode())]
+            return list(sp[1:8]) + [hexs(sp[8].encode())]
         return self.coercions_of(tok).split(',')
 
     def dump(self, tok):
         return SPECIALS[tok][0] if tok in SPECIALS else tok
 
     def dval(self, tok):
-        return SPECIALS[tok][8] if tok in SPECIALS else dbl_tok_value(tok)
+        return SPECIALS[tok][9] if tok in SPECIALS else dbl_tok_value(tok)
 
     def eq(self, a, b):
         """Variant::operator== with lhs a: the lhs alternative decides, the rhs is coerced"""
@@ -506,10 +558,10 @@ class SpecialOracle:
         if k == 'n':
             return 't' if b == 'n' else 'f'
         if k == 'b':
-            return 't' if a[1] == cb[0] else 'f'
+            return 't' if a[1] == cb[1] else 'f'
         if k == 'd':
-            return 't' if self.dval(a) == dbl_tok_value(cb[5]) else 'f'
-        x = cb[{'i': 1, 'u': 2, 'I': 3, 'U': 4}[k]]
+            return 't' if self.dval(a) == dbl_tok_value(cb[6]) else 'f'
+        x = cb[{'i': 2, 'u': 3, 'I': 4, 'U': 5}[k]]
         if x == 'ub':
             return 'u'
         return 't' if int(a[1:]) == int(x) else 'f'
@@ -543,14 +595,58 @@ class SpecialOracle:
                     res = '?outside-the-special-oracle'
             except IndexError:
                 res = 'badvar'
-            line = '%s | %s | %s | %s' % (res, ' '.join('%d:%s' % (TYPECODE[x[0]], self.dump(x)) for x in v),
-                                          ' '.join(','.join(self.co(x)) for x in v),
-                                          ''.join(self.eq(a, b) for a in v for b in v))
+            # the property excludes NaN: on the spec side nothing is expected of a variable holding it, nor of an == with it;
+            # the model side keeps what IEEE prescribes (correspondence only)
+            open_ = (lambda x: x == 'dnan') if not with_shape else (lambda x: False)
+            line = '%s | %s | %s | %s' % (res, ' '.join('?' if open_(x) else '%d:%s' % (TYPECODE[x[0]], self.dump(x)) for x in v),
+                                          ' '.join('?' if open_(x) else ','.join(self.co(x)) for x in v),
+                                          ''.join('?' if (open_(a) or open_(b)) else self.eq(a, b) for a in v for b in v))
             if with_shape:
                 line += ' | ' + ' '.join('.' for _ in v) + ' live=0'
             out.append(line)
         out.append('end leak=0')
         return out
+
+
+def standin_case(case, negzero):
+    out = []
+    for l in case:
+        t = l.split(' ')
+        if t[0] in ('sets', 'csets'):
+            x = t[-1]
+            if x in STANDIN:
+                t[-1] = STANDIN[x]
+            elif x == 'd-0':
+                t[-1] = negzero
+        out.append(' '.join(t))
+    return out
+
+
+def standin_rename(line):
+    line = line.replace(STANDIN['d-inf'], 'd-inf').replace(STANDIN['dinf'], 'dinf')
+    return line.replace(STANDIN_TEXT, hexs(b'inf'))
+
+
+def standin_patch_negzero(line_a, line_b):
+    """line_a: answer with -0 run as 0; line_b: answer with -0 run as NEGZERO_MARK.  A root-level variable that holds
+    the marked value holds -0: its %f text is "-0.000000" """
+    sa, sb = line_a.split(' | '), line_b.split(' | ')
+    if len(sa) < 3 or len(sb) < 3:
+        return line_a
+    dumps_b = sb[1].split(' ')
+    co = sa[2].split(' ')
+    for i, d in enumerate(dumps_b):
+        if d == '2:' + NEGZERO_MARK and i < len(co):
+            f = co[i].split(',')
+            f[-1] = hexs(b'-0.000000')
+            co[i] = ','.join(f)
+    sa[2] = ' '.join(co)
+    return ' | '.join(sa)
+
+
+def outside_lines(case, with_shape):
+    n = len([l for l in case if not l.startswith('@')])
+    return ['?outside-the-special-oracle'] * n + ['end leak=0']
 
 
 def special_cases(rng, thorough):
@@ -568,6 +664,45 @@ def special_cases(rng, thorough):
     return cases
 
 
+NESTED_SPECIALS = ['dinf', 'd-inf', 'd-0']
+
+
+def special_nested_cases(rng, thorough):
+    """infinities and -0 inside containers (every kind, two levels), copied, compared with each other / with their copy /
+    with ordinary scalars and strings at the same position, then written through the mutable accessors; plus random
+    nested histories whose scalars are special with probability 1/3"""
+    cases = []
+    others = ['d0_0', 'd1_0', 'i0', 'I-1', 'b1', 'n', 'd1_1023', 'd-1_-1074', 'U18446744073709551615']
+    n = 0
+    for a in NESTED_SPECIALS:
+        for b in NESTED_SPECIALS + others:
+            for kd in 'lam':
+                n += 1
+                items = {'l': '-:2,-:3', 'a': '-:2,-:3', 'm': '61:2,6b:3'}[kd]
+                first = {'l': 'l#0', 'a': 'a#0', 'm': 'm=61'}[kd]
+                second = {'l': 'l#1', 'a': 'a#1', 'm': 'm#1'}[kd]
+                c = ['@4', 'sets 2 - %s' % a, ('csets 3 %s' % b) if n % 2 else ('sets 3 - %s' % b),
+                     'setnode 0 - %s %s' % (kd, items),                   # 0 = [a, b]
+                     ('copynew 1 0' if n % 3 else 'assign 1 - 0 -'),      # shares the payload
+                     'sets 1 %s %s' % (second, a),                        # copy-on-write: 1 = [a, a], 0 unchanged
+                     'assign 3 - 0 %s' % first,                           # the special value read out of the container
+                     'cont 0 - %s ins:9999:7a 1 %s' % (kd, second),        # 0 = [a, b, a]
+                     'setnode 2 - l -:0,-:1',                             # two levels: [[a,b,a],[a,a]]
+                     'assign 1 - 2 l#0',                                  # 1 == 0 again, by value, through another path
+                     'sets 2 l#1/%s %s' % (first, b), 'swap 0 2', 'clear 1 -']
+                cases.append(c)
+    strs = ['0', '-0.000000', '0.000000', '', 'abc', '1e22']      # string vs special (BAD_STR keeps text reading as inf out)
+    for a in NESTED_SPECIALS:
+        for st in strs:
+            if str_ok(st):
+                cases.append(['@3', 'sets 0 - %s' % a, 'setstr 1 - %s' % hx(st), 'setnode 2 - l -:0,-:1', 'assign 0 - 2 -',
+                              'assign 1 - 2 l#1', 'cont 2 - l rem:0 0 -', 'assign 1 - 0 l#0'])
+    for _ in range(400 if thorough else 110):
+        k = rng.choice([2, 3, 4])
+        cases.append(['@%d' % k] + history(rng, k, rng.randrange(6, 22), nested=0.6, invalid=0.02, special=0.34))
+    return [c for c in cases if is_special_case(c)]
+
+
 OPEN_WITNESS = 'corpus/C07/open/self-containing.ops'
 
 
@@ -583,6 +718,35 @@ def open_witness_cases():
             cur = None
         elif cur is not None and line and not line.startswith('#'):
             cur.append(line)
+    return cases
+
+
+def maporder_cases():
+    cases = []
+    # variable 2 = "z", 3 = 7; 0 and 1 = maps
+    pre = ['@4', 'setstr 2 - 7a', 'sets 3 - i7']
+    builds = {
+        'ab': ['setnode %v - m 61:2,62:3'],
+        'ba': ['setnode %v - m 62:3,61:2'],                                        # same entries, other order
+        'ba-front': ['setnode %v - m 62:3', 'cont %v - m ins:0:61 2 -'],            # a inserted in front of b: order a, b
+        'ab-reins': ['setnode %v - m 61:2,62:3', 'cont %v - m remkey:61 2 -', 'cont %v - m ins:9999:61 2 -'],   # order b, a
+        'ab-swapvals': ['setnode %v - m 61:3,62:2'],                               # same keys, other values
+        'ba-swapvals': ['setnode %v - m 62:2,61:3'],
+        'ac': ['setnode %v - m 61:2,63:3'],                                        # another key set
+        'a': ['setnode %v - m 61:2'],
+        'abc': ['setnode %v - m 61:2,62:3,63:2'], 'cab': ['setnode %v - m 63:2,61:2,62:3'], 'bca': ['setnode %v - m 62:3,63:2,61:2'],
+        'a0b': ['setnode %v - m 6100:2,61:3'], 'ba0': ['setnode %v - m 61:3,6100:2'],
+    }
+    names = list(builds)
+    for x in names:
+        for y in names:
+            if x >= y:
+                continue
+            b = [l.replace('%v', '0') for l in builds[x]] + [l.replace('%v', '1') for l in builds[y]]
+            cases.append(pre + b)
+            # nested: as list items, and as values of an outer map; then a copy of one side compared with the other
+            cases.append(pre + b + ['setnode 2 - l -:0,-:3', 'setnode 3 - l -:1,-:3', 'copynew 0 2', 'assign 1 - 3 l#0'])
+            cases.append(pre + b + ['setnode 2 - m 6b:0', 'setnode 3 - m 6b:1', 'setnode 0 - a -:2', 'setnode 1 - a -:3'])
     return cases
 
 
@@ -728,6 +892,9 @@ class C07(Check):
         if self._co_cache is None:
             res = Check.run_spec(self, [['@1', 'sets 0 - %s' % t] for t in COMPANIONS], tag='spec_companions')
             C07._co_cache = {t: r[0].split(' | ')[2] for t, r in zip(COMPANIONS, res)}
+        if tok not in self._co_cache:      # an ordinary operand outside the companion list (random histories, shrinking)
+            res = Check.run_spec(self, [['@1', 'sets 0 - %s' % tok]], tag='spec_companions')
+            C07._co_cache[tok] = res[0][0].split(' | ')[2]
         return self._co_cache[tok]
 
     def _with_special(self, cases, tag, base, with_shape):
@@ -735,16 +902,91 @@ class C07(Check):
         if not idx:
             return base(self, cases, tag=tag)
         orc = SpecialOracle(self._coercions_of)
-        rest = [c for i, c in enumerate(cases) if i not in set(idx)]
-        rr = iter(base(self, rest, tag=tag) if rest else [])
         sidx = set(idx)
-        return [orc.run(c, with_shape) if i in sidx else next(rr) for i, c in enumerate(cases)]
+        # (a) root-level scalar histories: python oracle; (b) the rest (no NaN, no strtouch/strapp): stand-in runs
+        kind = {}
+        for i in idx:
+            c = cases[i]
+            if is_root_scalar_case(c):
+                kind[i] = 'a'
+            elif any(re.search(r'(^| )dnan( |$)', l) or l.startswith(('strtouch', 'strapp')) for l in c):
+                kind[i] = 'x'
+            else:
+                kind[i] = 'b'
+        rest = [c for i, c in enumerate(cases) if i not in sidx]
+        bidx = [i for i in idx if kind[i] == 'b']
+        run_a = [standin_case(cases[i], 'd0_0') for i in bidx]
+        nz = [i for i in bidx if any(re.search(r'(^| )d-0( |$)', l) for l in cases[i])]
+        run_b = [standin_case(cases[i], NEGZERO_MARK) for i in nz]
+        res = base(self, rest + run_a + run_b, tag=tag) if (rest or run_a) else []
+        rr = iter(res[:len(rest)])
+        ans_a = dict(zip(bidx, res[len(rest):len(rest) + len(run_a)]))
+        ans_b = dict(zip(nz, res[len(rest) + len(run_a):]))
+        out = []
+        for i, c in enumerate(cases):
+            if i not in sidx:
+                out.append(next(rr))
+            elif kind[i] == 'a':
+                out.append(orc.run(c, with_shape))
+            elif kind[i] == 'x':
+                out.append(outside_lines(c, with_shape))
+            else:
+                la = ans_a[i]
+                if i in ans_b and len(ans_b[i]) == len(la):
+                    la = [standin_patch_negzero(x, y) for x, y in zip(la, ans_b[i])]
+                out.append([standin_rename(x) for x in la])
+        return out
 
     def run_spec(self, cases, tag='spec'):
         return self._with_special(cases, tag, Check.run_spec, False)
 
     def run_model(self, cases, tag='model'):
         return self._with_special(cases, tag, Check.run_model, True)
+
+    # ---- the property oracle: the Spec's expected observation, in which `?` stands for what the text leaves open - a whole
+    #      token, one comma-separated field of a coercion token, or one character of the == matrix ----
+    @staticmethod
+    def spec_line_matches(spec, impl):
+        if spec == impl:
+            return True
+        ss, ii = spec.split(' | '), impl.split(' | ')
+        if len(ss) > len(ii):
+            return False
+        for n, (s_, i_) in enumerate(zip(ss, ii)):
+            if s_ == i_:
+                continue
+            st, it = s_.split(' '), i_.split(' ')
+            if len(st) != len(it):
+                return False
+            for a, b in zip(st, it):
+                if a == b or a == '?':
+                    continue
+                if '?' not in a:
+                    return False
+                if n == 2:
+                    fa, fb = a.split(','), b.split(',')
+                    if len(fa) != len(fb) or any(x != y and x != '?' for x, y in zip(fa, fb)):
+                        return False
+                elif n == 3:
+                    if len(a) != len(b) or any(x != y and x != '?' for x, y in zip(a, b)):
+                        return False
+                else:
+                    return False
+        return True
+
+    def judge(self, cases, impl_obs, spec_obs):
+        fails = []
+        for i, (s_, o) in enumerate(zip(spec_obs, impl_obs)):
+            k = None
+            for j in range(max(len(s_), len(o))):
+                if j >= len(s_) or j >= len(o) or not self.spec_line_matches(s_[j], o[j]):
+                    k = j
+                    break
+            if k is not None:
+                exp = s_[k] if k < len(s_) else '<nothing>'
+                got = o[k] if k < len(o) else '<nothing>'
+                fails.append((i, k, 'spec expects `%s`, implementation gives `%s`' % (exp, got)))
+        return fails
 
     def nontrivial(self, case, obs):
         shared = any(re.search(r':r([2-9]|\d\d)', l.split(' | ')[-1]) for l in obs if ' | ' in l)
@@ -780,6 +1022,15 @@ class C07(Check):
         out.append(Stream('dblspecial', special_cases(rng, thorough), exhaustive=True,
                           note='dinf / d-inf / d-0 against each other and %d ordinary scalars: set or construct, assign, swap, copy, ==, '
                                'every coercion; expected values from a hand-written oracle' % len(COMPANIONS)))
+        # 1a'. the same special values inside containers (stand-in runs of the extracted Spec/Model, see above)
+        out.append(Stream('dblnested', special_nested_cases(rng, thorough),
+                          note='dinf / d-inf / d-0 as items of lists, arrays and maps (two levels), copied, read out, written through '
+                               'the mutable accessors, compared with copies, ordinary scalars and strings; random nested histories '
+                               'with a third of the scalars special'))
+        # 1a''. two maps holding the same entries in different insertion order (the text is silent on their ==)
+        out.append(Stream('maporder', maporder_cases(), exhaustive=True,
+                          note='maps with equal / permuted / different key sequences and equal / different values, at the root, as '
+                               'list items and as map values, built by assignment, by insert-at-front and by remove + re-insert'))
         # 1b. the copy-on-write case split (all of it in the thorough tier, a third in the quick tier)
         cw = cowsplit_cases()
         if not thorough:
